@@ -36,7 +36,7 @@ def shared(after, size, thr, chunk, io, fault_at, phase, cancel_which, cancel_to
     try:
         t = 0
         while True:
-            if after == 'shutdown' and t == shutdown_top:
+            if after in ('shutdown', 'shutdown-kbd') and t == shutdown_top:
                 break          # the user calls shutdown() while transfers are still queued / running
             if cancel_which >= 0 and t == cancel_top:
                 for i in range(3):
@@ -50,6 +50,15 @@ def shared(after, size, thr, chunk, io, fault_at, phase, cancel_which, cancel_to
             t += 1
         if after == 'shutdown':
             m.shutdown()
+            t_shutdown = env.clock
+        elif after == 'shutdown-kbd':
+            # Ctrl-C while shutdown() waits: everything unfinished is cancelled, and it is still a barrier
+            S.interrupt_pending = True
+            try:
+                m.shutdown()
+            except KeyboardInterrupt:
+                cancelled = [True, True, True]
+            S.interrupt_pending = False
             t_shutdown = env.clock
     except ns.Stuck:
         return '~'
@@ -88,8 +97,8 @@ def shared(after, size, thr, chunk, io, fault_at, phase, cancel_which, cancel_to
     for s in (c.subs[0], sub2[0], sub3[0]):
         if s.done != 1:
             return 'c18: on_done not exactly once for every transfer'
-    if after == 'shutdown':
-        if not S.quiescent():
+    if after in ('shutdown', 'shutdown-kbd'):
+        if not S.quiescent() or not all(e.closed for e in S.execs):
             return 'c18: shutdown returned with tasks queued or running'
         if env.clock != t_shutdown:
             return 'c18: request / write / callback after shutdown returned'
@@ -127,6 +136,11 @@ def _ranges(lo, hi, w):
 
 _NONE = [['fault_at == -1', 'phase == 0']]
 _Z = ['c0 == 0', 'c1 == 0']
+def kbd_shutdown(size, thr, chunk, io, shutdown_top, c0):
+    """C18.kbd: Ctrl-C arrives while shutdown() (called before the shutdown_top-th task start) is waiting"""
+    return shared('shutdown-kbd', size, thr, chunk, io, -1, 0, -1, 0, c0, 0, shutdown_top)
+
+
 def early_shutdown(size, thr, chunk, io, fault_at, phase, shutdown_top, c0):
     """C18.early: shutdown() called before the shutdown_top-th task start, i.e. while transfers are still queued or
     running - the barrier then rests on wait() + the order in which the three executors are joined"""
@@ -134,6 +148,13 @@ def early_shutdown(size, thr, chunk, io, fault_at, phase, shutdown_top, c0):
 
 
 OBLIGATIONS = [
+    dict(id='C18.kbd', impl='kbd_shutdown', params='size: int, thr: int, chunk: int, io: int, shutdown_top: int, c0: int',
+         pre=_SH[:-2] + ['0 <= c0 <= 2', '0 <= shutdown_top <= 8'],
+         splits=[['c0 == 0', 'shutdown_top <= 2'], ['c0 == 0', '2 < shutdown_top <= 5'], ['c0 == 0', '5 < shutdown_top']],
+         splits_thorough=[['c0 == %d' % i] for i in range(3)], timeout=(170, 1200),
+         bounds='3 transfers on one manager; shutdown() before a symbolic task start, interrupted by Ctrl-C in its wait',
+         encodes=['TransferManager._shutdown (KeyboardInterrupt path)', 'TransferCoordinatorController.wait / cancel'],
+         assumptions=['S1', 'S2', 'nested (LIFO) schedules only']),
     dict(id='C18.early', impl='early_shutdown',
          params='size: int, thr: int, chunk: int, io: int, fault_at: int, phase: int, shutdown_top: int, c0: int',
          pre=_SH[:-1] + ['0 <= phase <= 1', '0 <= c0 <= 2', '-1 <= fault_at <= 40', '0 <= shutdown_top <= 6'],
